@@ -50,7 +50,7 @@ Definition exec_list (f : stmt -> oracle -> result (trace * oracle * sout))
   | [] => Ok (pend, o, ONormal)
   | s :: r =>
       match s with
-      | SDefer c => go (c :: pend) r o
+      | SDefer d => go (flat d ++ pend) r o
       | _ =>
         do x <- f s o;
         let '(t1, o1, out) := x in
@@ -69,7 +69,7 @@ Fixpoint exec (fuel : nat) (s : stmt) (o : oracle) {struct s} : result (trace * 
   | SBreak l => Ok ([], o, OBreak l)
   | SContinue l => Ok ([], o, OContinue l)
   | SReturn => Ok ([], o, OReturn)
-  | STry => let '(c0, o0) := next o in Ok ([], o0, if c0 then OReturn else ONormal)
+  | STry _ => let '(c0, o0) := next o in Ok ([], o0, if c0 then OReturn else ONormal)
   | SBlock lbl body =>
       do x <- exec_list (exec fuel) [] body o;
       let '(t, o1, out) := x in
@@ -123,7 +123,7 @@ Definition hexec_list (f : hstmt -> oracle -> result (trace * oracle * tout))
   | [] => Ok (pend, o, TNormal)
   | h :: r =>
       match h with
-      | HDefer c => go (c :: pend) r o
+      | HDefer cs => go (cs ++ pend) r o
       | _ =>
         do x <- f h o;
         let '(t1, o1, out) := x in
@@ -143,8 +143,8 @@ Fixpoint hexec (fuel : nat) (h : hstmt) (o : oracle) {struct h} : result (trace 
   | HBreak (Some l) => Ok ([], o, TExit l)
   | HContinue None => Crash 3
   | HContinue (Some l) => Ok ([], o, THeader l)
-  | HTry None => Crash 4
-  | HTry (Some l) => let '(c0, o0) := next o in Ok ([], o0, if c0 then TExit l else TNormal)
+  | HTry _ None => Crash 4
+  | HTry _ (Some l) => let '(c0, o0) := next o in Ok ([], o0, if c0 then TExit l else TNormal)
   | HBlock sid body =>
       do x <- hexec_list (hexec fuel) [] body o;
       let '(t, o1, out) := x in
@@ -240,7 +240,7 @@ Definition kc_list (f : list centry -> hstmt -> bool * bool * bool) (sid : optio
   | [] => (false, false, false)
   | h :: r =>
       match h with
-      | HDefer _ => go true r
+      | HDefer cs => go (pend || negb (match cs with [] => true | _ => false end)) r
       | _ => let x := f (CFrame sid pend :: cx) h in
              if is_jump_stmt h then x else or3 x (go pend r)
       end
@@ -249,9 +249,9 @@ Definition kc_list (f : list centry -> hstmt -> bool * bool * bool) (sid : optio
 Fixpoint kc (cx : list centry) (h : hstmt) {struct h} : bool * bool * bool :=
   match h with
   | HPrint _ | HDefer _ => (false, false, false)
-  | HBreak (Some l) | HTry (Some l) => (k1_at cx l, false, false)
+  | HBreak (Some l) | HTry _ (Some l) => (k1_at cx l, false, false)
   | HContinue (Some l) => (false, k2_at cx l, false)
-  | HBreak None | HContinue None | HTry None => (false, false, false)
+  | HBreak None | HContinue None | HTry _ None => (false, false, false)
   | HBlock sid body =>
       or3 (false, false, k3_block sid body) (kc_list (fun c x => kc c x) sid cx false body)
   | HLoop sid _ body => kc_list (fun c x => kc c x) None (CLoop sid :: cx) false body
